@@ -12,14 +12,14 @@ func init() { register("C19", c19) }
 
 // named exceptions for the log-only classification, one symbol each
 var c19LogSafe = map[string]string{
-	Mod + "/internal/arch/x86asm.Decode":             "decoder is pure on its input; its only global write is the trace hook slice that is nil by default",
-	"(" + Mod + "/internal/arch/x86asm.Inst).String":  "pure rendering of a decoded instruction",
-	"(" + Mod + "/internal/arch/x86asm.Op).String":    "pure rendering",
-	Mod + "/internal/arch/arm64asm.Decode":           "decoder is pure on its input (coverage slice write is judged under C11)",
+	Mod + "/internal/arch/x86asm.Decode":               "decoder is pure on its input; its only global write is the trace hook slice that is nil by default",
+	"(" + Mod + "/internal/arch/x86asm.Inst).String":   "pure rendering of a decoded instruction",
+	"(" + Mod + "/internal/arch/x86asm.Op).String":     "pure rendering",
+	Mod + "/internal/arch/arm64asm.Decode":             "decoder is pure on its input (coverage slice write is judged under C11)",
 	"(" + Mod + "/internal/arch/arm64asm.Inst).String": "pure rendering",
 	"(" + Mod + "/internal/arch/arm64asm.Op).String":   "pure rendering",
-	Mod + "/internal/bytecode/memory.RawRead":        "returns a private copy of text bytes under the read lock",
-	Mod + "/internal/bytecode.DecodeAddress":         "panics only for an operand width outside {1,2,4,8}; callers pass the decoder's PCRel (1,2 or 4 when PCRelOff>0, verified by C16's table check)",
+	Mod + "/internal/bytecode/memory.RawRead":          "returns a private copy of text bytes under the read lock",
+	Mod + "/internal/bytecode.DecodeAddress":           "panics only for an operand width outside {1,2,4,8}; callers pass the decoder's PCRel (1,2 or 4 when PCRelOff>0, verified by C16's table check)",
 }
 
 var c19StdSafe = []string{"fmt.", "strings.", "strconv.", "encoding/hex.", "time.Now", "(time.Time).", "runtime.Caller", "runtime.FuncForPC", "(*runtime.Func).", "runtime.Callers", "runtime.CallersFrames", "(*runtime.Frames).", "path.", "path/filepath.", "bytes.",
